@@ -5,6 +5,7 @@
 From Coq Require Import Sorted.
 From PasfmtVerif Require Import Model.DirectiveTree Proofs.DirectiveTreeProofs Model.ParserKernel Proofs.ParserKernelProofs
   Proofs.ParseFileProofs Model.Pipeline Proofs.PipelineProofs.
+From PasfmtVerif Require Import Model.LineConsolidators Proofs.LineConsolidatorsProofs.
 
 (* every pass is a strictly increasing list of valid indices of non-directive tokens *)
 Theorem C14_pass_sorted :
@@ -55,3 +56,98 @@ Proof. exact final_lines_cover. Qed.
 (* the five hook sites are the only code that mutates the parser's line state (generated inventory) *)
 Theorem C14_kernel_sites : strings_eqb inv_kernel_mutations expected_kernel_mutations = true.
 Proof. exact inventory_kernel_mutations. Qed.
+
+(* ---- the two line consolidators that run after the parser (Model/LineConsolidators.v, bit-exact incl. the
+   toolchain's binary search): cover, parents and levels survive consolidation; only ConditionalDirective lines
+   are voided; DeindentPackageDirectives changes levels only ---- *)
+Theorem C14_consolidation_preserves_cover :
+  forall (tys : list TokenType) (lines : list lline),
+  lines_cover tys lines = true ->
+  conddir_lines_singleton lines = true ->
+  no_voided lines = true -> lines_cover_nv tys (conddir_consolidate_std tys lines) = true.
+Proof. exact conddir_std_preserves_cover. Qed.
+
+Theorem C14_consolidation_only_voids_directive_lines :
+  forall (tys : list TokenType) (lines : list lline),
+  Forall2
+    (fun l c : lline =>
+     c = fst (expand_line tys l) \/ ll_type l = LLT_ConditionalDirective /\ c = void_line l)
+    lines (conddir_consolidate_std tys lines).
+Proof. exact conddir_std_only_voids_directive_lines. Qed.
+
+Theorem C14_consolidation_parents_unchanged :
+  forall (tys : list TokenType) (lines : list lline),
+  map ll_parent (conddir_consolidate_std tys lines) = map ll_parent lines /\
+  map ll_level (conddir_consolidate_std tys lines) = map ll_level lines.
+Proof. exact conddir_std_parents_unchanged. Qed.
+
+Theorem C14_consolidation_no_token_lost :
+  forall (tys : list TokenType) (lines : list lline) (i : nat),
+  conddir_lines_singleton lines = true ->
+  no_voided lines = true ->
+  (exists l : lline, In l lines /\ In i (ll_toks l)) ->
+  exists c : lline,
+    In c (conddir_consolidate tys lines) /\ is_voided_line c = false /\ In i (ll_toks c).
+Proof. exact conddir_no_token_lost. Qed.
+
+Theorem C14_expand_line_superset :
+  forall (tys : list TokenType) (l l' : lline) (dirs : list nat),
+  expand_line tys l = (l', dirs) ->
+  ll_type l' = ll_type l /\
+  ll_level l' = ll_level l /\
+  ll_parent l' = ll_parent l /\
+  incl (ll_toks l) (ll_toks l') /\
+  hd 0%nat (ll_toks l') = hd 0%nat (ll_toks l) /\
+  last (ll_toks l') 0%nat = last (ll_toks l) 0%nat /\
+  (ll_toks l' = [] <-> ll_toks l = []) /\
+  (strictly_increasing (ll_toks l) = true -> strictly_increasing (ll_toks l') = true) /\
+  (in_range tys (ll_toks l) = true -> in_range tys (ll_toks l') = true) /\
+  (forall t : nat,
+   In t (ll_toks l') ->
+   In t (ll_toks l) \/
+   added_ok tys t = true /\ (hd 0 (ll_toks l) < t < last (ll_toks l) 0)%nat) /\
+  (forall d : nat,
+   In d dirs ->
+   In d (ll_toks l') /\
+   is_cond_directive_at tys d = true /\ (hd 0 (ll_toks l) < d < last (ll_toks l) 0)%nat) /\
+  (dirs = [] -> l' = l).
+Proof. exact expand_line_superset. Qed.
+
+Theorem C14_expand_line_contiguous :
+  forall (tys : list TokenType) (l l' : lline) (dirs : list nat),
+  expand_line tys l = (l', dirs) ->
+  dirs <> [] ->
+  strictly_increasing (ll_toks l) = true ->
+  ll_toks l' = seq (hd 0%nat (ll_toks l)) (last (ll_toks l) 0%nat - hd 0%nat (ll_toks l) + 1).
+Proof. exact expand_line_contiguous. Qed.
+
+Theorem C14_binary_search_eq_first_match :
+  forall (tys : list TokenType) (lines : list lline),
+  unique_first_tokens lines = true ->
+  conddir_consolidate_std tys lines = conddir_consolidate tys lines.
+Proof. exact conddir_std_eq_first. Qed.
+
+Theorem C14_consolidation_total :
+  forall (tys : list TokenType) (lines : list lline),
+  lines_cover tys lines = true ->
+  conddir_consolidate_chk tys lines = Some (conddir_consolidate tys lines).
+Proof. exact conddir_chk_total_cover. Qed.
+
+Theorem C14_deindent_only_levels :
+  forall (tys : list TokenType) (lines : list lline),
+  length (deindent_package tys lines) = length lines /\
+  map ll_type (deindent_package tys lines) = map ll_type lines /\
+  map ll_parent (deindent_package tys lines) = map ll_parent lines /\
+  map ll_toks (deindent_package tys lines) = map ll_toks lines /\
+  map ll_level (deindent_package tys lines) =
+  map (fun l : lline => if is_package_file tys && is_directive_line l then 0 else ll_level l)
+    lines /\
+  (first_real_ty tys <> Some (TT_Keyword KK_Package) -> deindent_package tys lines = lines).
+Proof. exact deindent_only_levels. Qed.
+
+Theorem C14_deindent_preserves_cover :
+  forall (tys : list TokenType) (lines : list lline),
+  lines_cover tys (deindent_package tys lines) = lines_cover tys lines /\
+  lines_cover_nv tys (deindent_package tys lines) = lines_cover_nv tys lines.
+Proof. exact deindent_preserves_cover. Qed.
+
